@@ -230,7 +230,7 @@ struct Rules {
     }
     if (o.k == SWAP_R && S.swaps) {
       bool k1 = m.known.count(o.a), k2 = m.known.count(o.b);
-      if (!k1 || !k2) return S.mapc ? "row_unknown_to_swap_maps" : "row_beyond_swap_vectors";
+      if (!k1 || !k2) return S.mapc ? "swap_rows_with_row_unknown_to_the_maps" : "swap_rows_with_row_beyond_the_swap_vectors";
     }
     return "";
   }
